@@ -176,9 +176,10 @@ def popf_expr_hook(tr, e, want):
         cname = tr.spec.cls if (e.func.id == "cls" and tr.spec.cls) else e.func.id
         if cname in POPF_CTORS and e.args:
             kw = {k.arg: k.value for k in e.keywords if k.arg}          # `**kwargs` (forwarded to the file reader) is not an argument of the model
-            save = tr.tmp
+            save, n_aux, n_loop = tr.tmp, len(tr.aux), tr.nloop          # scratch translation: learn the type of the first argument
             s0, c0, t0 = tr.tr(e.args[0])
-            tr.tmp = save
+            tr.tmp, tr.nloop = save, n_loop
+            del tr.aux[n_aux:]
             for lean in POPF_CTORS[cname]:
                 callee = by_lean_global[lean]
                 pt = parse_type(callee.vars[callee.params[1]])
@@ -239,11 +240,12 @@ def popf_expr_hook(tr, e, want):
 
 
 def _popf_changes_state(tr, x):
-    save = tr.tmp
+    save, n_aux, n_loop = tr.tmp, len(tr.aux), tr.nloop
     try:
         s, _, _ = tr.tr(x)
     finally:
-        tr.tmp = save
+        tr.tmp, tr.nloop = save, n_loop
+        del tr.aux[n_aux:]
     return any(not st.startswith("Py.bind (") or "let v :=" in st for st in s)
 
 
